@@ -24,7 +24,7 @@ import core
 DRIVERS = [("threads", "Threads")]
 
 OPN = {0: "Scope", 1: "Call", 2: "Resume", 3: "CancelCaller", 4: "Deliver", 5: "StartCall", 6: "FinishCall",
-       7: "CheckCancelledCall", 8: "SetTotal"}
+       7: "CheckCancelledCall", 8: "SetTotal", 9: "ThreadReturn"}
 KINDS = {0: "return", 1: "raise", 2: "StopIteration", 3: "from_thread.run", 4: "from_thread.run_sync", 5: "contextvar"}
 
 STEP_TIMEOUT = 5.0     # a step whose effect does not show within this time is reported as a hang
@@ -583,6 +583,8 @@ class Run:
         if lost:
             self.leak = (f"{len(lost)} of {len(ws)} worker threads are neither idle nor running a function after every "
                          f"call ended (never reusable, never pruned)")
+        else:
+            self.flags.add("pool_all_idle_at_end")
 
     def execute(self):
         import anyio
@@ -596,7 +598,7 @@ class Run:
         finally:
             A.WorkerThread.MAX_IDLE_TIME = old
         self.outs += self.final_obs()
-        if self.mon or self.hang or (self.leak and self.racy is None):
+        if self.mon or self.hang or self.leak:
             FAILED.append(self)
         return self
 
@@ -608,6 +610,8 @@ class Run:
              "ops_readable": readable(self.ops)}
         if self.hang and self.current_op:
             d["hanging_op"] = readable(list(self.current_op))
+        if self.racy is not None:
+            d["racy"] = getattr(self.racy, "desc", None)
         return d
 
 
@@ -785,11 +789,19 @@ def racy_early_cancel(n: int, abandon: bool):
             if abandon and c not in r.started:
                 r.flags.add("early_cancel_item_skipped")
         await r.until(lambda: not r.texec, "functions of early-cancelled calls never returned")
-        for _ in range(20):
-            await asyncio.sleep(0)
-        await asyncio.sleep(0.002)
+        # every worker - whether it ran the function or skipped the cancelled item - must come back to the idle deque
+        deadline = time.monotonic() + 1.5
+        while time.monotonic() < deadline:
+            ws, idle = r.pool()
+            if all(w in idle for w in ws):
+                break
+            await asyncio.sleep(0.001)
         r.landed |= set(r.started)
 
+    scenario.desc = {"scenario": "racy_early_cancel", "n": n, "abandon": abandon,
+                     "history": "per call: caller task started in a fresh CancelScope; after two loop cycles (caller in the "
+                                "limiter's shielded checkpoint) the scope is cancelled; the thread function, if it starts at "
+                                "all, returns at once"}
     return scenario
 
 
@@ -840,7 +852,7 @@ def check(tier: str) -> int:
         "not exhibited by the model, exercised here with REAL threads and monitors only: preemptive interleavings inside the "
         "thread function, the GIL, queue.Queue/call_soon_threadsafe delivery, context-variable copying, from_thread.run / "
         "from_thread.run_sync round trips, the race 'worker dequeues the item' vs 'future cancelled' (abandon_on_cancel=True, "
-        "early cancel), idle-worker pruning by wall-clock age (only MAX_IDLE_TIME=0 'prune everything' is modelled), "
+        "early cancel; both outcomes are in the model: ThreadStart -> WExec or WSkip/ThreadReturn, only the choice is the runtime's), idle-worker pruning by wall-clock age (only MAX_IDLE_TIME=0 'prune everything' is modelled), "
         "worker shutdown at the end of the root task",
         "real threads are not steppable: each script step waits for a definite effect (function signalled start / caller done / "
         "worker back in the idle deque) with a 5 s timeout; a timeout is reported as a failure, never waited out",
@@ -852,14 +864,22 @@ def check(tier: str) -> int:
     runs: list[Run] = []
     corpus_dir = core.VERIF / "corpus" / "C14"
     n_corpus = 0
+    racy: list[Run] = []
+    model_only = []        # (name, raw model case, expected output): witnesses evaluated by the model alone
     if corpus_dir.exists():
         for f in sorted(corpus_dir.glob("*.json")):
             c = json.loads(f.read_text())
+            n_corpus += 1
+            if "model_raw_case" in c:
+                model_only.append((f.name, c["model_raw_case"], c["model_expected"]))
+            if c.get("kind") == "racy_early_cancel":
+                for uv in (False, True):
+                    racy.append(Run(2, False, uv, 0, racy=racy_early_cancel(c["n"], bool(c["abandon"]))).execute())
+                continue
             plan = [tuple(c["ops"][i:i + 4]) for i in range(0, len(c["ops"]), 4)]
             # ops the (unchanged) implementation does not enable at that point are skipped, cf. plan_chooser
             runs.append(Run(c["total"], bool(c["prune"]), bool(c.get("uvloop")), c["ncalls"],
                             chooser=plan_chooser(plan)).execute())
-            n_corpus += 1
     # directed family (small scope, all combinations)
     plans = directed_plans()
     if tier == "quick":
@@ -889,7 +909,6 @@ def check(tier: str) -> int:
     runs += ex
 
     # races: monitors only
-    racy = []
     for uv in ((False, True) if not plenty() else ()):
         racy.append(Run(2, False, uv, 0, racy=racy_early_cancel(12 if tier == "quick" else 60, False)).execute())
         racy.append(Run(2, False, uv, 0, racy=racy_early_cancel(25 if tier == "quick" else 150, True)).execute())
@@ -904,6 +923,10 @@ def check(tier: str) -> int:
         if e != m:
             k = next((i for i in range(min(len(e), len(m))) if e[i] != m[i]), min(len(e), len(m)))
             disagreements.append({**r.replay(), "impl": e, "model": m, "first_diff_step": k // 8})
+    model_only_bad = []
+    if model_only:
+        got = core.run_driver(exe, [c for (_, c, _) in model_only])
+        model_only_bad = [n for (n, _, e), g in zip(model_only, got) if g != e]
     rejected = sum(1 for m, r in zip(model_outs, runs) for i in range(0, len(r.ops) // 4 * 8, 8) if i < len(m) and m[i] == 9)
 
     sample_n = 30 if tier == "quick" else 300
@@ -916,8 +939,7 @@ def check(tier: str) -> int:
     # ---- decide ----
     hits = [(r, msg) for r in runs + racy for msg in r.mon]
     hangs = [r for r in runs + racy if r.hang]
-    leaks_settled = [r for r in runs if r.leak]
-    leaks_racy = [r for r in racy if r.leak]
+    leaks = [r for r in runs + racy if r.leak]
     seen_kinds = set()
     for r, msg in sorted(hits, key=lambda h: len(h[0].ops)):
         kind = re.sub(r"\d+", "#", msg)[:40]
@@ -931,14 +953,8 @@ def check(tier: str) -> int:
     for r in hangs[:3]:
         rep.violation("step effect not observed within the timeout: " + r.hang,
                       {"kind": "hang", **r.replay(), "racy_scenario": r.racy is not None})
-    for r in leaks_settled[:2]:
-        rep.violation("worker pool: " + r.leak, {"kind": "monitor", **r.replay()})
-    if leaks_racy:
-        n_lost = sum(int(r.leak.split()[0]) for r in leaks_racy)
-        rep.known_finding(
-            "worker-thread leak: a to_thread.run_sync(abandon_on_cancel=True) call cancelled before its worker dequeued the "
-            f"item leaves that worker neither idle nor stopped ({n_lost} threads lost in this run; "
-            "Coq witness C14_no_worker_leak_refuted); limiter tokens and results are unaffected")
+    for r in leaks[:2]:
+        rep.violation("worker pool: " + r.leak, {"kind": "monitor", **r.replay(), "racy_scenario": r.racy is not None})
     tie_broken = []
     if not proofs_ok:
         tie_broken.append("proof obligation: " + str(rep.coverage.get("proof_failure", {}).get("where")))
@@ -948,7 +964,9 @@ def check(tier: str) -> int:
         tie_broken.append(f"model rejected {rejected} ops the implementation performed")
     if not vm_ok:
         tie_broken.append("vm_compute sample disagrees with the extracted model")
-    if tie_broken and not hits and not hangs and not leaks_settled:
+    if model_only_bad:
+        tie_broken.append(f"model witnesses of the corpus no longer evaluate as recorded: {model_only_bad}")
+    if tie_broken and not hits and not hangs and not leaks:
         d = min(disagreements, key=lambda d: len(d["ops"])) if disagreements else None
         rep.violation("; ".join(tie_broken), {"kind": "tie", "broken": tie_broken, "case": d}, no_input=True)
 
@@ -988,6 +1006,7 @@ def check(tier: str) -> int:
         "exhaustive_truncated_by_budget": ex_truncated,
         "racy_monitor_only_runs": len(racy),
         "corpus_cases": n_corpus,
+        "corpus_model_witnesses": len(model_only),
         "uvloop_cases": sum(1 for r in runs + racy if r.uv),
         "reached": flags,
         "op_distribution": opcount,
